@@ -263,7 +263,7 @@ class Prop(PropBase):
                     kw["out"] = (out_obj,)
                 else:
                     tgt = sigs.make(pb, tgt_cls, 4, 77 * u.kHz, None, nchan=2, data=np.zeros(rr[-1].shape, rr[-1].dtype),
-                                    meta={"id": 99}, **({"pol_type": "circular"} if tgt_cls == "DualPolarizationSignal" else {}))
+                                    meta={"id": 99}, no_swap=True, **({"pol_type": "circular"} if tgt_cls == "DualPolarizationSignal" else {}))
                     if tgt.shape != rr[-1].shape:
                         out_kind = "none"
                     else:
